@@ -936,7 +936,7 @@ def _gen_simple_body(self, dir_):
             # a fixed number of fixed-size elements (zero of them included) keeps the struct fixed-size
             return {"tag": "array", "name": _uniq_name(self.draw, self.field_pool, names, "f"),
                     "type": self.pick(INT_TYPES) if not fixed_structs or self.boolean(0.7) else self.pick_type(dir_, fixed_structs),
-                    "length": str(self.draw(st.sampled_from([0, 0, 1, 2, 3])))}
+                    "length": str(self.draw(st.sampled_from([0, 0, 0, 1, 2, 3])))}
         ins = {"tag": "field", "name": _uniq_name(self.draw, self.field_pool, names, "f")}
         if k == "int":
             ins["type"] = self.pick(INT_TYPES)
